@@ -2,6 +2,7 @@
 EXTENDS KlevSeg
 \* model constants that cannot be written in a cfg file
 mcKeys1 == {"n"}
+mcKeys2 == {"n", "a"}
 mcKeys3 == {"n", "a", "b"}
 mcKeys4 == {"n", "a", "b", "g"}
 mcHash == [k \in {"n", "a", "b", "g"} |-> CASE k = "n" -> 0 [] k = "a" -> 1 [] k = "b" -> 1 [] k = "g" -> 2]
